@@ -1352,7 +1352,7 @@ fn lookup_strings(script: &[String], rng: &mut Rng) -> Vec<String> {
             }
         }
     }
-    for x in ["", "!", "!A", "!A0", "!A1", "!A2", "!R0", "!S0", "!K0", "!D0", "!T0", "!a0", "!\u{c9}0", "!\u{c9}x", "!A00", "!A-1", "!A+1", "!A 1", "!A1 ",
+    for x in ["", "!", "!A", "!A0", "!A1", "!A2", "!R0", "!S0", "!K0", "!D0", "!T0", "!a0", "!\u{c9}0", "!\u{c9}x", "!A00", "!A-1", "!A+1", "!A+0", "!R+0", "!S+0", "!A 1", "!A1 ",
               "!A99999999999999999999999", "!A18446744073709551616", "!A4294967296", "!R4294967296", "!S4294967296", "!A4294967297", "!R8589934592", "!A1x", "a0 ", " a0", "A0", "!\u{ff21}0", "!A\u{663}", "!!A0", "\u{1F600}", "!\u{1F600}1", "!K1", "!D1", "!S1", "!R1"] {
         v.insert(x.to_string());
     }
@@ -1394,7 +1394,8 @@ fn run_ids(rep: &mut Report, script: &[String], with_reindex: bool, rng: &mut Rn
         }
     };
     let letter = |kind: &str| match kind { "ann" => 'A', "res" => 'R', _ => 'S' };
-    let parse_usize = |s: &str| -> Option<usize> { s.parse::<usize>().ok() };
+    // (a temporary identifier is `!`, the letter, and digits: what the library writes; no sign)
+    let parse_usize = |s: &str| -> Option<usize> { if !s.is_empty() && s.bytes().all(|b| b.is_ascii_digit()) { s.parse::<usize>().ok() } else { None } };
     // snapshot of expectations for public ids before reindex (ids must keep designating the same item)
     let mut before: BTreeMap<(String, String), Option<String>> = BTreeMap::new();
     for kind in ["ann", "res", "set"] {
@@ -1433,11 +1434,28 @@ fn run_ids(rep: &mut Report, script: &[String], with_reindex: bool, rng: &mut Rn
             let want_desc = before.get(&(kind.to_string(), id.clone())).cloned().flatten().or_else(|| temp.and_then(|h| describe(&ex.store, kind, h)));
             if got_desc != want_desc {
                 let cls = if temp.is_some() { "temp-id" } else if with_reindex { "after-reindex" } else if id.starts_with('!') { "temp-like" } else { "public-id" };
-                rep.fail("oracle", &format!("C03/resolve-{}/{}", kind, cls), c, &format!("{:?}", want_desc), &format!("{:?} ({})", got_desc, out));
+                rep.fail("oracle", &format!("C03/resolve-{}/{}", kind, cls), c.clone(), &format!("{:?}", want_desc), &format!("{:?} ({})", got_desc, out));
+            }
+            // the public `resolve_*_id` answers for exactly the strings the lookup finds an item for
+            let resolved: Result<bool, String> = guarded(std::panic::AssertUnwindSafe(|| match kind { "ann" => ex.store.resolve_annotation_id(id).is_ok(), "res" => ex.store.resolve_resource_id(id).is_ok(), _ => ex.store.resolve_dataset_id(id).is_ok() }));
+            match resolved {
+                Err(m) => rep.fail("panic", &format!("C03/resolve-{}/resolve_id-panics", kind), c.clone(), "Ok or Err", &m),
+                Ok(r) => if r != out.starts_with('h') { rep.fail("oracle", &format!("C03/resolve-{}/resolve_id-answers-for-no-item", kind), c.clone(), &format!("resolve_{}_id is Ok exactly when the lookup finds an item ({})", kind, out), &format!("Ok = {}", r)); },
             }
             if !with_reindex {
                 lines.push(line);
                 outs.push(out);
+            }
+        }
+    }
+    // a lookup through an annotation, whatever the string (not after compaction, which leaves annotations whose own text
+    // cannot be walked: the known finding of C01)
+    if let Some(a) = ex.store.annotations().next().filter(|_| !with_reindex) {
+        for id in &strings {
+            if let Err(m) = guarded(std::panic::AssertUnwindSafe(|| a.textselectionset_in(id.as_str()).is_some())) {
+                let mut c = ctx.clone(); c.push(format!("annotation.textselectionset_in({:?})", id));
+                rep.fail("panic", "C03/textselectionset_in/panic", c, "a set or nothing", &m);
+                break;
             }
         }
     }
